@@ -1,7 +1,7 @@
 #!/bin/bash
 # confirm_seeded.sh <id>: in the scratch worktree /tmp/wt/<id> (change applied, build dir present) re-check that
 # (1) the 30 existing tests pass with the change, (2) the demo fails with it, (3) the demo passes without it.
-id=$1; wt=/tmp/wt/$id
+id=$1; wt=${2:-/tmp/wt}/$id
 export OMPI_ALLOW_RUN_AS_ROOT=1 OMPI_ALLOW_RUN_AS_ROOT_CONFIRM=1
 cd $wt || exit 2
 git diff --quiet -- include && { echo "change not applied"; exit 2; }
